@@ -19,6 +19,8 @@ pub struct Cache {
     // the processes that are still alive somewhere (queued tasks keep their process alive),
     // a process that is evicted while it is in use must not be loaded a second time
     live: Arc<Mutex<HashMap<String, Weak<Process>>>>,
+    // a process that is not cached is loaded by one caller at a time
+    loading: Arc<Mutex<()>>,
 }
 
 impl std::fmt::Debug for Cache {
@@ -37,6 +39,7 @@ impl Cache {
             procs: MokaCache::new(cap as u64),
             store: Arc::new(Store::new()),
             live: Arc::new(Mutex::new(HashMap::new())),
+            loading: Arc::new(Mutex::new(())),
         }
     }
 
@@ -79,6 +82,12 @@ impl Cache {
         match self.get_proc(pid) {
             Some(proc) => Some(proc.clone()),
             None => {
+                // two callers that miss the process at the same time must not load two copies of
+                // it: one loads, the other finds what the first has loaded
+                let _loading = self.loading.lock().unwrap();
+                if let Some(proc) = self.get_proc(pid) {
+                    return Some(proc);
+                }
                 // evicted from the cache but still in use: take the living one
                 let alive = self.live.lock().unwrap().get(pid).and_then(|p| p.upgrade());
                 if let Some(proc) = alive {
